@@ -1187,9 +1187,11 @@ def search(ctx: C.Ctx, disagreements, broken) -> List[C.Failing]:
         return out
     big = C.Ctx(ctx.prop, "thorough", ctx.seed + 1, random.Random(), ctx.t0, ctx.jobs)
     out = oracle(big, C.Coverage())
+    own_known = {k["sig"] for k in C.load_known("C11") if k.get("status", "open") == "open"}
+    out = [f for f in out if f.sig not in own_known]
     if not out:
         # the sister property's oracle may see what broke; its own recorded findings are not C11's business
-        known = {k["sig"] for k in C.load_known("C10")}
+        known = {k["sig"] for k in C.load_known("C10") if k.get("status", "open") == "open"}
         out = [f for f in c10.oracle(big, C.Coverage()) if f.sig not in known]
     return out
 
